@@ -31,13 +31,13 @@ type plan struct {
 func planFor(tier string) plan {
 	if tier == "thorough" {
 		return plan{Alpha: Alphabet{MaxLocks: 4, FullUndel: true, Probes: true},
-			Seeds: []seedPlan{{"mixed", 4, nil}, {"undelegating", 4, nil}, {"init", 5, nil}, {"delegated", 5, nil},
+			Seeds: []seedPlan{{"mixed", 4, nil}, {"undelegating", 4, nil}, {"init", 5, nil}, {"delegated", 5, nil}, {"long", 4, nil},
 				{"cl-delegated", 4, &Alphabet{MaxLocks: 3, FullUndel: true, Probes: true, NoShareLocks: true, CL: true, CLPartial: true}},
 				{"mixed-cl", 3, &Alphabet{MaxLocks: 6, FullUndel: true, Probes: true, CL: true, CLPartial: true, UCS: true, UCSBothVals: true, Unpool: 2}},
 				{"converted", 5, &Alphabet{MaxLocks: 4, NoShareLocks: true, UCS: true, UCSBothVals: true, Unpool: 2}}}}
 	}
 	return plan{Alpha: Alphabet{MaxLocks: 3, FullUndel: false, Probes: false},
-		Seeds: []seedPlan{{"init", 4, nil}, {"delegated", 3, nil}, {"undelegating", 3, nil}, {"mixed", 3, nil},
+		Seeds: []seedPlan{{"init", 4, nil}, {"delegated", 3, nil}, {"undelegating", 3, nil}, {"mixed", 3, nil}, {"long", 2, nil},
 			{"cl-delegated", 3, &Alphabet{MaxLocks: 3, NoShareLocks: true, CL: true}},
 			{"mixed-cl", 3, &Alphabet{MaxLocks: 5, NoShareLocks: true, CL: true, UCS: true, Unpool: 1}}}}
 }
@@ -62,6 +62,9 @@ func seedOps(name string, cfg Config) []Op {
 	case "mixed":
 		// (S3) two owners on one intermediary account, a split-off lock undelegating and unlocking
 		return []Op{{K: "lockdel", A: "A", V: 0}, {K: "lockdel", A: "B", V: 0}, {K: "undelunbond", P: 0, X: 1, Y: 3}, {K: "ff", X: h - 1}, {K: "swap", X: 0}, {K: "epoch"}}
+	case "long":
+		// (S7) B's lock is twice as long as the unbonding period and delegated to val1, A's ordinary lock to val0; one epoch
+		return []Op{{K: "lockdel", A: "A", V: 0}, {K: "lock", A: "B", X: 2}, {K: "del", P: 1, V: 1}, {K: "ff", X: h - 1}, {K: "epoch"}}
 	case "cl-delegated":
 		// (S4) concentrated shares only: A's full-range position delegated to val0, B's to val1, a price move on the
 		// concentrated pool, one epoch
